@@ -15,6 +15,7 @@ use tokio::io::{AsyncReadExt, AsyncWriteExt};
 
 thread_local! {
     static EV: RefCell<Vec<Value>> = const { RefCell::new(Vec::new()) };
+    static DUP_SENDING: std::cell::Cell<bool> = const { std::cell::Cell::new(false) };
 }
 static REAL_EV: std::sync::Mutex<Vec<Value>> = std::sync::Mutex::new(Vec::new());
 /// single-run mode: (output path, the run's reset line).  A simulation that is still busy 90 virtual seconds after the
@@ -70,6 +71,9 @@ struct Plan {
     /// final offset (the end-of-stream signal: the last data packet or an empty packet after shutdown) are dropped
     #[serde(skip_serializing_if = "Option::is_none")]
     drop_fin: Option<(String, u32)>,
+    /// simulation only: this share of the datagrams is delivered a second time a little later (sent again by a task on the
+    /// sender's host from another port, as an on-path duplicator would)
+    dup_permille: u32,
     /// real TCP runs only: the client's connection goes through a slow relay with minimal socket buffers (short writes)
     slow_tcp: bool,
     client_mtu: u16,
@@ -107,6 +111,7 @@ fn plan(seed: u64, rng: &mut StdRng, k: usize) -> Plan {
         drop_permille: if mode == "lossy" { [10u32, 50, 150][rng.random_range(0..3)] } else if by_count { [50u32, 150, 300][rng.random_range(0..3)] } else { 0 },
         vanish_after_server_packets: if by_count { Some(rng.random_range(1..expected + 6)) } else { None },
         slow_tcp: false,
+        dup_permille: if mode != "vanish" { [0u32, 0, 30, 150][rng.random_range(0..4)] } else { 0 },
         drop_fin: if mode != "vanish" && rng.random_bool(0.4) { Some((["c2s", "s2c"][rng.random_range(0..2)].to_string(), rng.random_range(1..4))) } else { None },
         outage: if mode == "lossy" && rng.random_bool(0.5) { let f = [500u64, 3_000, 50_000][rng.random_range(0..3)]; Some((["c2s", "s2c", "both"][rng.random_range(0..3)].to_string(), f, f + [2_000u64, 300_000, 4_000_000][rng.random_range(0..3)])) } else { None },
         vanish_at_us: if mode == "vanish" && !by_count { [0u64, 700, 3_000, 200_000][rng.random_range(0..4)] } else { 0 },
@@ -338,6 +343,10 @@ fn run_sim_here(p: Plan) -> Vec<Value> {
             let mut gone = false;
             let drop_fin = p.drop_fin.clone();
             let mut fin_dropped = 0u32;
+            let dups: std::sync::Arc<std::sync::Mutex<Vec<(bool, std::net::SocketAddr, Vec<u8>)>>> = Default::default();
+            let stop = std::sync::Arc::new(std::sync::atomic::AtomicBool::new(false));
+            let dup_permille = p.dup_permille;
+            let dups_m = dups.clone();
             let mut npk = 0u64;
             let progress = std::env::var_os("VERIF_PROGRESS").is_some();
             ::bach::net::monitor::on_packet_sent(move |packet| {
@@ -385,8 +394,31 @@ fn run_sim_here(p: Plan) -> Vec<Value> {
                     if t >= *from && t < *to && (dir == "both" || (dir == "c2s") == to_server) { return ::bach::net::monitor::Command::Drop; }
                 }
                 if permille > 0 && rng.random_range(0..1000) < permille { return ::bach::net::monitor::Command::Drop; }
+                if dup_permille > 0 && server_ip.is_some() && !DUP_SENDING.with(|c| c.get()) && rng.random_range(0..1000) < dup_permille {
+                    dups_m.lock().unwrap().push((to_server, packet.destination(), packet.transport.payload().to_vec()));
+                }
                 Default::default()
             });
+            for (group, towards_server) in [("client", true), ("server", false)] {
+                let (dups, stop) = (dups.clone(), stop.clone());
+                if dup_permille == 0 { break; }
+                async move {
+                    let Ok(sock) = ::bach::net::UdpSocket::bind("0.0.0.0:0").await else { return };
+                    while !stop.load(std::sync::atomic::Ordering::Relaxed) {
+                        Duration::from_micros(300).sleep().await;
+                        let mine: Vec<(std::net::SocketAddr, Vec<u8>)> = { let mut g = dups.lock().unwrap(); let (a, b): (Vec<_>, Vec<_>) = g.drain(..).partition(|d| d.0 == towards_server); *g = b; a.into_iter().map(|d| (d.1, d.2)).collect() };
+                        for (dst, bytes) in mine {
+                            DUP_SENDING.with(|c| c.set(true));
+                            let _ = sock.send_to(&bytes, dst).await;
+                            DUP_SENDING.with(|c| c.set(false));
+                            emit(json!({"ev": "duplicated", "len": bytes.len(), "to_server": towards_server}));
+                        }
+                    }
+                }
+                .group(group)
+                .spawn();
+            }
+            let stop_c = stop.clone();
             let streams = p.streams.clone();
             let cm = p.client_mtu;
             async move {
@@ -401,6 +433,7 @@ fn run_sim_here(p: Plan) -> Vec<Value> {
                 }
                 futures_join_all(handles).await;
                 emit(json!({"ev": "end"}));
+                stop_c.store(true, std::sync::atomic::Ordering::Relaxed);
                 if let Some((path, reset)) = LINGER_OUT.get() {
                     // the client endpoint stays alive meanwhile: streams the application is done with are still being
                     // flushed by the library's workers
